@@ -308,7 +308,15 @@ def run_history(schema, C, ty, ops, R=None, reread=False):
                 m = c                      # the history continues on the copy
             elif k == "indep":
                 e["op"] = "mutcopy"
+                from .props.c02 import UNKNOWN
                 for c in (copy.deepcopy(m), pickle.loads(pickle.dumps(m))):
+                    mutate_everything(schema, C, ty, c)
+                for c in (copy.deepcopy(m), pickle.loads(pickle.dumps(m))):
+                    # more wire data (unknown fields, and whatever field number 1 is) received by the copy only
+                    try:
+                        c.parse(UNKNOWN[0] + UNKNOWN[2] + b"\x08\x05")
+                    except Exception:
+                        pass
                     mutate_everything(schema, C, ty, c)
                 reassign_toplevel(schema, C, ty, copy.copy(m))
             else:
